@@ -49,6 +49,7 @@ fn main() {
   }
   let code = match id.as_str() {
     "C04" => dispatch!(props::c04::C04),
+    "C08" => dispatch!(props::c08::C08),
     "C15" => dispatch!(props::c15::C15),
     other => {
       eprintln!("no check for property {other}");
